@@ -71,3 +71,17 @@ SPEC = dict(
 
 def run(tier, seed):
     return svlib.run_spec(SPEC, tier, seed)
+
+MANIFEST = dict(
+    claimed=True,
+    technique="Lean 4 theorem: write/read round trip of the lock-file grammar (Display/FromStr of every source kind, dependency "
+              "lines, disambiguation, from_graph/to_graph) for all well-formed graphs and every record order + differential correspondence",
+    text="proof: pinned_roundtrip, depline_roundtrip, C20_roundtrip_any_order (WFGraph g -> for every permutation of the written "
+         "records to_graph reconstructs the same packages and the same edges with names, kinds, salts) hold of the byte-level "
+         "model; every conjunct of WFGraph is justified by a decide-proved witness that the round trip fails without it, and each "
+         "witness is replayed on the real code at every run; tied to the real Lock::from_graph -> toml -> to_graph on 6k / 120k "
+         "random graphs with adversarial names, sources and salts.",
+    note="trusted: Lean kernel + 3 standard axioms; TOML layer checked to be the identity per case; gix_url/cid/semver as a parameter "
+         "table supplied per case from the real crates. WFGraph conjuncts that ARE reachable from a real manifest (e.g. ')' in a "
+         "dependency alias, '#' in a git branch) are findings, see known_findings.json; conjuncts enforced by forc's validators are assumptions.",
+)
